@@ -3,7 +3,7 @@
 From Coq Require Import List Arith Bool NArith ZArith.
 From Verif.lib Require Import FinSet.
 From Verif.C04 Require Import Model.
-From Verif.C03 Require Import Model Proofs.
+From Verif.C03 Require Import Model Proofs Proofs2.
 Import ListNotations.
 
 (* p = 2, two spans, the first one refined once: AF_0 = {1,2,3}, AF_1 = {0,1} *)
@@ -98,4 +98,43 @@ Proof. vm_compute. split; reflexivity. Qed.
 Example ex_thb_to_hb :
   thb_to_hb Z 1%Z Z.add Z.mul Z.opp st1 pm1
   = [[(0%N, 1%Z)]; [(1%N, 1%Z)]; [(2%N, 1%Z)]; [(3%N, 1%Z)]; [(0%N, (-2)%Z); (4%N, 1%Z)]].
+Proof. vm_compute. reflexivity. Qed.
+
+(* hassemble_entry_partial: the concrete representation repc (products of Kronecker prolongators) on st1 / P4;
+   the hypotheses evaluated over the index boxes of the two levels (tests), and the conclusion with non-zero values *)
+Definition repc1 := repc Z 0%Z 1%Z Z.add Z.mul st1 pm1.
+Example ex_repc_is_two_scale : map (fun r => repc1 0 1 [1] [r]) (seq 0 6) = [0; 2; 3; 1; 0; 0]%Z.
+Proof. vm_compute. reflexivity. Qed.
+Example ex_concrete_hyps :
+  (* locality of the banded forms on both levels *)
+  forallb (fun k => forallb (fun r => forallb (fun c =>
+     negb (is_empty (inter (support1 (msh st1 k) r) (support1 (msh st1 k) c))) || Z.eqb (a1 false k r c) 0) (fns1 k)) (fns1 k)) [0; 1] = true
+  (* children inside the parent's support *)
+  /\ forallb (fun r => forallb (fun r' =>
+        negb (mem r' (fchildren Z pm1 0 [r]))
+        || forallb (fun c => mem (parent1 c) (support1 (msh st1 0) r)) (support1 (msh st1 1) r')) (fns1 1)) (fns1 0) = true
+  (* active functions / interlevel rows are functions of their level *)
+  /\ forallb (fun k => subset (AFm st1 k) (fns1 k) && subset (il1 k) (fns1 k)) [0; 1] = true.
+Proof. vm_compute. repeat split; reflexivity. Qed.
+Example ex_concrete_values :
+  map (fun fifj : mi * mi => blk_entry Z 0%Z Z.add Z.mul (a1 false) repc1 nb1 il1 ta1 false 0 (fst fifj) 1 (snd fifj)) pairs10
+  = map (fun fifj : mi * mi => spec_entry Z 0%Z Z.add Z.mul (a1 false) repc1 fns1 0 (fst fifj) 1 (snd fifj)) pairs10
+  /\ blk_entry Z 0%Z Z.add Z.mul (a1 false) repc1 nb1 il1 ta1 false 0 [1] 1 [1] = 50%Z.
+Proof. vm_compute. split; reflexivity. Qed.
+
+(* functional_entry: the HB load vector picks, per level, the entries of that level's vector *)
+Example ex_functional :
+  rhs_hb Z 0%Z st1 (fun k => map (fun i => Z.of_nat (100 * k + i)) (seq 0 6)) = [1; 2; 3; 100; 101]%Z.
+Proof. vm_compute. reflexivity. Qed.
+
+(* coo_merge_sums_duplicates: duplicates are summed, rows outside the shape ignored *)
+Example ex_coo_merge :
+  coo_to_rows Z 1%Z Z.add Z.mul 2 [(1%N, 3%N, 5%Z); (0%N, 1%N, 2%Z); (1%N, 3%N, 7%Z); (1%N, 0%N, 1%Z); (4%N, 0%N, 9%Z)]
+  = [[(1%N, 2%Z)]; [(0%N, 1%Z); (3%N, 12%Z)]].
+Proof. vm_compute. reflexivity. Qed.
+
+(* fancy indexing with an unsorted index list with a repetition *)
+Example ex_fancy :
+  sm_cols Z (sm_rows Z P4 [4; 1; 1]%N) [2; 0; 2; 1]%N
+  = [[(0%N, 2%Z); (2%N, 2%Z)]; [(1%N, 2%Z); (3%N, 2%Z)]; [(1%N, 2%Z); (3%N, 2%Z)]].
 Proof. vm_compute. reflexivity. Qed.
